@@ -452,7 +452,12 @@ func c11panicCheck(w *Worker, pc c11panicCase, idx int64) {
 	// contained panic must not leave the printer on the unsafe side (or the safe one) for the text that follows.
 	if pc.Method != "SafeFormat" && (pc.Mode <= 2 || pc.Mode == 8) && !strings.Contains(pc.Msg, "\n") {
 		sof, soc := safeOnly(parse(full)), safeOnly(parse(cut))
-		if loc := panicFrameRe.FindStringIndex(sof); loc != nil {
+		loc := panicFrameRe.FindStringIndex(sof)
+		if loc == nil {
+			w.Violate("C11 classification-after-panic", "the frame of the panic report (%!v(PANIC=... method: ) is not outside envelopes in "+q(full), cs())
+			return
+		}
+		{
 			rest := sof[loc[1]:]
 			if strings.HasPrefix(rest, ")") {
 				if got := sof[:loc[0]] + rest[1:]; got != soc {
@@ -528,15 +533,17 @@ func c11doublePanics(c *Ctx) {
 		run := func(withBad bool) (out string, ok bool) {
 			k := 1
 			var bad interface{} = tStringer{""}
+			_, firstIsString := firsts[j[1]].(string)
+			named := firstIsString && j[0]%2 == 0
 			if withBad {
 				bad = tPanicStringer{panicSpec{mode: 5, msg: "boom", k: &k}}
-				if i%2 == 1 {
+				if named {
 					// the same through a type of string kind (all operands of the nested call may then be of string kind)
 					key := "named-" + itoa(int(i))
 					namedStrCounters.Store(key, &k)
 					bad = tPanicNamedStr(key)
 				}
-			} else if i%2 == 1 {
+			} else if named {
 				bad = "" // the twin without the panic: a plain empty string
 			}
 			ok = guard(w, "double-panic-escaped", "a call in which a panic passes through a nested printer and is contained by the enclosing one", cs, func() {
